@@ -222,6 +222,22 @@ pub fn c05_world(seed: u64, corpus: &[Program]) -> (World, Dims) {
     let log_level = if r.chance(1, 16) && !any_big { 4 + r.below(2) as u8 } else { 3 };
     // the user's shell: another locale, time zone, home, terminal, working directory, compiler-ish variables
     let env = if r.chance(1, 8) { 1 + r.below(crate::job::ENVIRONMENTS.len() as u64) as u8 } else { 0 };
+    if env == 2 && r.chance(2, 3) {
+        // the compiler-ish variables point at the include tree: requests that name no directory for their headers
+        // must fail the same way as in the baseline environment
+        for j in jobs.iter_mut().filter(|j| !j.includes.is_empty()) {
+            let mut kept = Vec::new();
+            let mut it = j.args.iter();
+            while let Some(a) = it.next() {
+                if a == "-I" {
+                    it.next();
+                } else {
+                    kept.push(a.clone());
+                }
+            }
+            j.args = kept;
+        }
+    }
     (World { prop: "C05".into(), seed, threads, jobs, sched, note: format!("{:?}", d), log_level, env }, d)
 }
 
